@@ -11,7 +11,8 @@ EXPLANATION = (
     'every literal comparison of a pattern character is guarded by the not-equal edge of each metacharacter test, so `*` and `?` in file names are literal text and '
     'in patterns are wildcards; (R4) in run_local, run_remote and run_bisync every call that can reach a file-system mutator or a mutating remote command is guarded '
     'by dry_run == false (read-only listings and `hostname` may precede the test); the plan printed is the plan executed; (R5) deletes are applied only from plan.delete. '
-    'Not decided: the full wildcard semantics of the backtracking matcher (loop algorithm over runtime strings).')
+    'R3 also cuts glob_match at its loop heads and compares every transition (successor, new pi/ti/star/mark, returned value) with the classic single-star backtracking matcher for every valuation of the six branch atoms; a one-star fast path by starts_with/ends_with without a length test is reported. '
+    'Not decided: that the classic matcher equals the declarative wildcard semantics (textbook argument); an early return outside the modelled loops is NO-VERDICT.')
 ASSUMPTIONS = ['remote verbs classified read-only (cd, find, cat <file>, hostname) do not modify the remote tree']
 
 
